@@ -99,6 +99,8 @@ def relevant(div, spec):
         call = det.get("call", {})
         var = monitors.variant(call.get("msg")) if call.get("entry") == "execute" else call.get("entry")
         return var in spec["variants"]
+    if ch.startswith("probe."):
+        return "reply" in spec["variants"]
     if ch.startswith("state."):
         key = ch.split(".", 1)[1]
         return key in spec["state_keys"] or not spec["state_keys"]
